@@ -10,6 +10,7 @@ CONSTANTS
   ListenerValues <- ValuesL
   OutValues <- ValuesFew
   OutKinds <- KindsFew
+  MCScopes <- ScopesTop
   Emitting = TRUE
 INVARIANT PContained
 INVARIANT PZeroIff
